@@ -234,6 +234,11 @@ def denote : RSpec → Except Err Nat
     | .ok _ => denote y
   | .reent _ _ _ after => denote after
 
+/-- the error of an outcome (`Except` has no decidable equality) -/
+def errOf : Except Err Nat → Option Err
+  | .error e => some e
+  | .ok _ => none
+
 def How.covers : How → Bool
   | .isolated => true
   | .handed rs => rs.childErrors && rs.noPyframe
